@@ -111,6 +111,9 @@ def run(ch, ctx):
     if ch.chance('c10.exhaust', 1, 4):
         bias['variants'] = EXHAUST
         bias['min_players'] = 7
+    if ch.chance('c10.refused_street', 1, 40):
+        bias['variants'] = ('XHD',)         # a street with hole cards and a draw together: must be refused (aborted run)
+        ctx.count('refused_street_list_tried')
     cfg = gen_config(ch, bias)
     mon = DealMonitor()
     world = None
